@@ -52,13 +52,50 @@ type Locker interface {
 	Unlock()
 }
 
-// RWMutex is modelled as a plain mutex (coarser, still sound for exclusion).
-type RWMutex struct{ m Mutex }
+// RWMutex: any number of readers or one writer. (Writer preference of the
+// real implementation - a waiting writer blocks new readers - is not modelled:
+// every behaviour of the real lock is among the explored ones.)
+type RWMutex struct {
+	writer  bool
+	readers int
+	vc      vsched.VC // released by writers (acquired by everybody)
+	rvc     vsched.VC // released by readers (acquired by writers)
+}
 
-func (rw *RWMutex) Lock()    { rw.m.Lock() }
-func (rw *RWMutex) Unlock()  { rw.m.Unlock() }
-func (rw *RWMutex) RLock()   { rw.m.Lock() }
-func (rw *RWMutex) RUnlock() { rw.m.Unlock() }
+func (rw *RWMutex) Lock() {
+	vsched.Point("lock", "rwmutex")
+	vsched.Block("lock", "rwmutex", func() bool { return rw.writer || rw.readers > 0 })
+	rw.writer = true
+	vsched.Acquire(&rw.vc)
+	vsched.Acquire(&rw.rvc)
+}
+
+func (rw *RWMutex) Unlock() {
+	vsched.Point("unlock", "rwmutex")
+	if !rw.writer {
+		panic("vsync: Unlock of unlocked RWMutex")
+	}
+	vsched.Release(&rw.vc)
+	rw.writer = false
+	vsched.Point("after-release", "rwmutex")
+}
+
+func (rw *RWMutex) RLock() {
+	vsched.Point("rlock", "rwmutex")
+	vsched.Block("rlock", "rwmutex", func() bool { return rw.writer })
+	rw.readers++
+	vsched.Acquire(&rw.vc)
+}
+
+func (rw *RWMutex) RUnlock() {
+	vsched.Point("runlock", "rwmutex")
+	if rw.readers <= 0 {
+		panic("vsync: RUnlock of unlocked RWMutex")
+	}
+	vsched.Release(&rw.rvc)
+	rw.readers--
+	vsched.Point("after-release", "rwmutex")
+}
 
 type Once struct {
 	done atomic.Uint32
@@ -196,4 +233,156 @@ func (wg *WaitGroup) Wait() {
 	vsched.Point("wg-wait", "wg")
 	vsched.Block("wg-wait", "wg", func() bool { return wg.n > 0 })
 	vsched.Acquire(&wg.vc)
+}
+
+// RLocker returns a Locker whose Lock/Unlock are rw's RLock/RUnlock.
+func (rw *RWMutex) RLocker() Locker { return rlocker{rw} }
+
+type rlocker struct{ rw *RWMutex }
+
+func (r rlocker) Lock()   { r.rw.RLock() }
+func (r rlocker) Unlock() { r.rw.RUnlock() }
+
+func (rw *RWMutex) TryLock() bool {
+	vsched.Point("trylock", "rwmutex")
+	if rw.writer || rw.readers > 0 {
+		return false
+	}
+	rw.writer = true
+	vsched.Acquire(&rw.vc)
+	vsched.Acquire(&rw.rvc)
+	return true
+}
+
+func (rw *RWMutex) TryRLock() bool {
+	vsched.Point("tryrlock", "rwmutex")
+	if rw.writer {
+		return false
+	}
+	rw.readers++
+	vsched.Acquire(&rw.vc)
+	return true
+}
+
+// Go is WaitGroup.Go of newer toolchains.
+func (wg *WaitGroup) Go(f func()) {
+	wg.Add(1)
+	vsched.Go(func() {
+		defer wg.Done()
+		f()
+	})
+}
+
+// Cond: Wait releases L, blocks until a later Signal/Broadcast and re-acquires L.
+type Cond struct {
+	L       Locker
+	gen     int
+	waiters int
+	vc      vsched.VC
+}
+
+func NewCond(l Locker) *Cond { return &Cond{L: l} }
+
+func (c *Cond) Wait() {
+	my := c.gen
+	c.waiters++
+	c.L.Unlock()
+	vsched.Block("cond-wait", "cond", func() bool { return c.gen == my })
+	vsched.Acquire(&c.vc)
+	c.waiters--
+	c.L.Lock()
+}
+
+func (c *Cond) Signal() { c.Broadcast() } // waking more waiters than required is allowed (spurious wake-ups)
+func (c *Cond) Broadcast() {
+	vsched.Point("cond-broadcast", "cond")
+	vsched.Release(&c.vc)
+	c.gen++
+}
+
+// Map is sync.Map with one scheduling point per operation.
+type Map struct {
+	mu Mutex
+	m  map[any]any
+}
+
+func (m *Map) Load(k any) (any, bool) {
+	m.mu.Lock()
+	defer m.mu.Unlock()
+	v, ok := m.m[k]
+	return v, ok
+}
+func (m *Map) Store(k, v any) {
+	m.mu.Lock()
+	defer m.mu.Unlock()
+	if m.m == nil {
+		m.m = map[any]any{}
+	}
+	m.m[k] = v
+}
+func (m *Map) LoadOrStore(k, v any) (any, bool) {
+	m.mu.Lock()
+	defer m.mu.Unlock()
+	if old, ok := m.m[k]; ok {
+		return old, true
+	}
+	if m.m == nil {
+		m.m = map[any]any{}
+	}
+	m.m[k] = v
+	return v, false
+}
+func (m *Map) LoadAndDelete(k any) (any, bool) {
+	m.mu.Lock()
+	defer m.mu.Unlock()
+	v, ok := m.m[k]
+	delete(m.m, k)
+	return v, ok
+}
+func (m *Map) Delete(k any) { m.LoadAndDelete(k) }
+func (m *Map) Swap(k, v any) (any, bool) {
+	m.mu.Lock()
+	defer m.mu.Unlock()
+	old, ok := m.m[k]
+	if m.m == nil {
+		m.m = map[any]any{}
+	}
+	m.m[k] = v
+	return old, ok
+}
+func (m *Map) CompareAndSwap(k, old, new any) bool {
+	m.mu.Lock()
+	defer m.mu.Unlock()
+	if cur, ok := m.m[k]; ok && cur == old {
+		m.m[k] = new
+		return true
+	}
+	return false
+}
+func (m *Map) CompareAndDelete(k, old any) bool {
+	m.mu.Lock()
+	defer m.mu.Unlock()
+	if cur, ok := m.m[k]; ok && cur == old {
+		delete(m.m, k)
+		return true
+	}
+	return false
+}
+func (m *Map) Range(f func(k, v any) bool) {
+	m.mu.Lock()
+	snap := make([][2]any, 0, len(m.m))
+	for k, v := range m.m {
+		snap = append(snap, [2]any{k, v})
+	}
+	m.mu.Unlock()
+	for _, kv := range snap {
+		if !f(kv[0], kv[1]) {
+			return
+		}
+	}
+}
+func (m *Map) Clear() {
+	m.mu.Lock()
+	defer m.mu.Unlock()
+	m.m = nil
 }
